@@ -173,8 +173,11 @@ def generate(rng, n):
     else:
         explicit = {}
         fam.mapping_kind = rng.choice(["default", "default", "dict"])
+        all_td = rng.random() < 0.12  # a union of TypedDicts only (dispatched on the tag field at serialization)
+        if all_td:
+            fam.features.add("all_typed_dict")
         for i, nm in enumerate(names):
-            td = rng.random() < 0.2
+            td = all_td or rng.random() < 0.2
             tag_field = None
             r = rng.random()
             if td or r < 0.3:
@@ -195,7 +198,8 @@ def generate(rng, n):
                 tn = f"Renamed{nm}"
                 deco = f"@type_name({tn!r})\n"
                 fam.features.add("type_name_override")
-            pyname = fam.alias if fam.alias.isidentifier() else "tag_"
+            # the tag field is named like the discriminator, or has another name and is aliased to it
+            pyname = fam.alias if fam.alias.isidentifier() and rng.random() < 0.75 else "tag_"
             tf_src = ""
             if tag_field:
                 tann = "Literal[" + ", ".join(repr(v) for v in tag_field[1]) + "]" if tag_field[0] == "literal" else "str"
@@ -204,7 +208,9 @@ def generate(rng, n):
                 elif not td:
                     tf_src = f"    {pyname}: {tann} = field(metadata=alias({fam.alias!r}))\n"
                 else:
-                    tag_field = None
+                    tf_src = f"    {pyname}: Annotated[{tann}, alias({fam.alias!r})]\n"
+                if pyname != fam.alias:
+                    fam.features.add("aliased_tag_field")
             if td and not tag_field:
                 td = False  # a TypedDict alternative must declare the discriminator field
                 own = _mk_fields(rng, free_names, rng.choice([0, 1, 2]))
